@@ -179,6 +179,65 @@ def run(ctx):
         ctx.case(("mul", str(a), str(b)))
         ctx.count("mul")
 
+    # ---- structured row products: every residue of (#i - #(-i)) mod 4, incl. imbalances of +-4, +-8 (wrong phase rules agree on small n) ----
+    PLUS = [((1, 0), (1, 1)), ((1, 1), (0, 1)), ((0, 1), (1, 0))]        # (X,Y), (Y,Z), (Z,X): product carries +i
+    for n in range(1, 9 if thorough else 8):
+        for k in range(0, n + 1):
+            for m in range(0, n + 1 - k):
+                a = [False] * (2 * n + 1)
+                b = [False] * (2 * n + 1)
+                pos = list(range(n))
+                rng.shuffle(pos)
+                for idx, p in enumerate(pos[:k + m]):
+                    (ax, az), (bx, bz) = rng.choice(PLUS)
+                    if idx >= k:                                            # swapped order carries -i
+                        (ax, az), (bx, bz) = (bx, bz), (ax, az)
+                    a[p], a[p + n], b[p], b[p + n] = bool(ax), bool(az), bool(bx), bool(bz)
+                for p in pos[k + m:]:                                       # commuting filler: identical Paulis or identity
+                    if rng.random() < 0.5:
+                        x, z = rng.random() < 0.5, rng.random() < 0.5
+                        a[p], a[p + n], b[p], b[p + n] = x, z, x, z
+                a[2 * n], b[2 * n] = rng.random() < 0.5, rng.random() < 0.5
+                out = [bool(x) for x in StabilizerState._multiply_stabilizers(np.array(a), np.array(b))]
+                d = {"op": "mul", "n": n, "a": a, "b": b, "impl_out": out, "plus_i": k, "minus_i": m}
+                cases.append(("CMul %d %s %s %s" % (n, common.cblist(a), common.cblist(b), common.cblist(out)), d))
+                ctx.case(("mulS", str(a), str(b)))
+                ctx.count("mul_structured")
+                if (k - m) % 2 == 0:                                        # commuting rows: judge the sign by exact Pauli arithmetic
+                    want = O.ref_mul(np.array(a), np.array(b), n)
+                    if [bool(x) for x in want] != out:
+                        oracle_bad.append(d)
+    # GHZ-type states on 4..6 qubits in Y-rich generating sets: == and contains go through products with imbalance 4
+    for n in range(4, 7):
+        ghz = O.ref_zero(n)
+        ghz = O.ref_gate(ghz, n, "H", 0)
+        for i in range(1, n):
+            ghz = O.ref_gate(ghz, n, "CNOT", 0, i)
+        for _ in range(6 if thorough else 3):
+            u = ghz.copy()
+            for p in rng.sample(range(n), rng.randrange(0, n + 1)):
+                u = O.ref_gate(u, n, "S", p)
+            v = O.generating_sets(u, n, rng, 1)[-1]
+            s1 = S.mk_state(u)
+            res = bool(s1 == S.mk_state(v))
+            d = {"op": "eq", "n1": n, "t1": S.tabl(u), "n2": n, "t2": S.tabl(v), "impl_out": res}
+            cases.append(("CEq %d %s %d %s %s" % (n, common.ctab(S.tabl(u)), n, common.ctab(S.tabl(v)), common.cbool(res)), d))
+            ctx.case(("eqG", str(d["t1"]), str(d["t2"])))
+            ctx.count("eq_true" if res else "eq_false")
+            if not res:
+                oracle_bad.append(d)
+            els = sorted(O.group_elements(u, n))
+            for e in rng.sample(els, 3):
+                for flip in (False, True):
+                    gq = list(e[:-1]) + [e[-1] ^ flip]
+                    res = bool(s1.contains([bool(x) for x in gq]))
+                    d = {"op": "contains", "n": n, "in": S.tabl(u), "g": [bool(x) for x in gq], "impl_out": res}
+                    cases.append(("CContains %d %s %s %s" % (n, common.ctab(S.tabl(u)), common.cblist(gq), common.cbool(res)), d))
+                    ctx.case(("containsG", str(d["in"]), str(d["g"])))
+                    ctx.count("contains_true" if res else "contains_false")
+                    if res != (not flip):
+                        oracle_bad.append(d)
+
     for c in cases[:2] + cases[-2:]:
         ctx.sample(c[1])
     failing = S.run_cases(ctx, cases, "stabilizer gates/tensor/gauss/eq/contains")
